@@ -71,7 +71,9 @@ BagEq(p, q) == Len(p) = Len(q) /\ \A i \in 1 .. Len(p) : Count(p, p[i]) = Count(
 \*   block stack table p1, op group table p3, chiplets bus b_chip : empty / balanced at the end    -> 1
 \*   block hash table p2 : starts holding the program-hash row, empty at the end                    -> 1
 \*   range checker bus b_range : requests and responses cancel                                       -> first-row value
-\*   (stack overflow table and kernel procedure table depend on the public inputs: asserted by the AIR / recorded)
+\*   stack overflow table : starts with the rows of the inputs below position 15, ends with the rows of the outputs below
+\*     position 15 -> the value the public inputs define ("public": judged through the AIR's boundary assertions on this column)
+\*   (kernel procedure table: depends on the public inputs, recorded)
 AuxColumns == <<"p1_block_stack", "p2_block_hash", "p3_op_group", "stack_overflow", "b_range", "vt_chip", "b_chip">>
 Terminal(col) == CASE col \in {"p1_block_stack", "p2_block_hash", "p3_op_group", "b_chip"} -> "one"
                    [] col = "b_range" -> "first"
